@@ -696,6 +696,25 @@ def playAllM (w : World) (t : Rat) (held : List (Nat × Held)) : List Ev → Lis
 def playPattern (w : World) (t : Rat) (p : EPat) : List Msg × World × Rat × Bool :=
   playAllM w t [] (p.evs [] 1)
 
+/-- The events of a player's timetable that start before `limit`. -/
+def cutBefore (limit : Rat) : Rat → List Ev → List Ev
+  | _, [] => []
+  | t, e :: es =>
+    if t < limit then
+      e :: match e.delta with
+        | some d => cutBefore limit (t + d) es
+        | Option.none => []
+    else []
+
+/-- `player = p.play()` at `t0`; `player.stop()` after `a`; `player.play(reset=True)` after another `b`:
+    the first pass plays what starts before the stop, the second pass is the whole pattern again from its
+    beginning (new stream, new node ids). For compositions without Pmono. -/
+def playRestart (w : World) (t0 a b : Rat) (p : EPat) : List Msg × World × Rat × Bool :=
+  let es := p.evs [] 1
+  let r1 := playAllM w t0 [] (cutBefore (t0 + a) t0 es)
+  let r2 := playAllM r1.2.1 (t0 + a + b) [] es
+  (r1.1 ++ r2.1, r2.2.1, r2.2.2.1, r1.2.2.2 || r2.2.2.2)
+
 /-- The events a Pmono's Pbind part delivers (empty proto). -/
 def Binds.rows (b : Binds) : List Ev :=
   match b.len? with
